@@ -12,7 +12,8 @@ CODES = {10: "returned vector lengths differ from the original problem", 11: "ve
          20: "solve or decomposition with chordal decomposition enabled panicked / hung", 21: "reference solve (decomposition off) panicked / hung",
          31: "standard form: H differs from the model", 32: "augmented A differs from the model", 33: "augmented b differs from the model",
          34: "decomposed cone list differs from the model", 35: "reversed s is not the sum of the clique blocks", 36: "reversed z differs from the model",
-         37: "reversed vectors do not have the original length", 38: "cone maps differ from the model", 39: "malformed decomposition output"}
+         37: "reversed vectors do not have the original length", 38: "cone maps differ from the model", 39: "malformed decomposition output",
+         40: "compact layout: an overlap tie joins rows of different original entries / a new row has no unique original row (hypotheses of cmp_primal_equiv)"}
 
 
 def nontrivial(case):
